@@ -58,6 +58,11 @@ impl<K> KeyDate<K> {
     pub(crate) fn key(&self) -> &Arc<K> {
         &self.key
     }
+
+    #[cfg(mini_moka_verif)]
+    pub(crate) fn verif_info_ptr(&self) -> usize {
+        &*self.entry_info as *const EntryInfo<K> as usize
+    }
 }
 
 pub(crate) struct KeyHashDate<K> {
